@@ -23,7 +23,7 @@ def main(argv):
             rep = json.load(f)
         mod = importlib.import_module("qv.props." + pid.lower())
         if hasattr(mod, "replay"):
-            return main_run(pid, tier, seed, lambda ctx: mod.replay(ctx, rep))
+            return main_run(pid, tier, seed, lambda ctx: mod.replay(ctx, rep), no_evidence=True)
         print(json.dumps(rep, indent=1))
         return 0
     mod = importlib.import_module("qv.props." + pid.lower())
